@@ -21,7 +21,7 @@ Mirrors the code that exists:
   followed by `MappingWithEquals.DecodeMapstructure`.
 
 Go maps are association lists (first binding of a key is the binding); `m[k] = v` is `insert`
-(replace in place, else append).  The file system is a parameter `FS`.
+(replace in place, else append).  The file system and the registry of env_file formats are a parameter `FS`.
 -/
 namespace CV.EnvLayers
 
@@ -115,7 +115,22 @@ inductive Node
              -- (`fileIsMissing` treats it like ENOENT since the `fix:` commit; before, `os.IsNotExist` did not)
 deriving Repr
 
-abbrev FS := Str → Option Node
+/-- a parser registered with `dotenv.RegisterFormat`: it is handed the opened file (here: the node) and the lookup -/
+abbrev FormatParser := Node → Look → Except Err (List (Key × Str))
+
+/-- the world outside the project: the file system and the process-global registry of `env_file` formats
+    (`dotenv.RegisterFormat`; the library itself registers none) -/
+structure FS where
+  node : Str → Option Node
+  formats : Str → Option FormatParser := fun _ => none
+
+instance : CoeFun FS (fun _ => Str → Option Node) := ⟨FS.node⟩
+
+/-- `dotenv.ParseWithFormat`: an unregistered format is an error, a registered parser decides everything else -/
+def parseWithFormat (fs : FS) (format : Str) (nd : Node) (look : Look) : Except Err (List (Key × Str)) :=
+  match fs.formats format with
+  | none => .error .format
+  | some p => p nd look
 
 structure EnvFile where
   path : Str
@@ -123,16 +138,28 @@ structure EnvFile where
   format : Str
 deriving Repr, DecidableEq
 
+/-- the parser the harness registers under the private name `c16kv` (to exercise registered formats on the real code):
+    every line `K=V` is taken literally at its first `=` (no interpolation), a line without `=` is inherited from the lookup -/
+def kvParser : FormatParser
+  | .file ls, look => .ok (ls.foldl (fun out l => match l with
+      | .assign k v => insert k (CV.Template.renderL v) out
+      | .bare k => match look k with
+        | some x => insert k x out
+        | none => out
+      | .bad => insert ['A', ' ', 'B'] ['1'] out) [])
+  | .dir, _ => .error .read
+  | .notdir, _ => .error .read
+
 /-- `loadMappingFile` (reached only when `os.Stat` did not say "not exist") -/
 def loadMappingFile (fs : FS) (path format : Str) (look : Look) : Except Err (List (Key × Str)) :=
   match fs path with
   | none => .error .read                       -- os.Open fails
   | some .notdir => .error .read               -- os.Open fails: "not a directory"
   | some .dir =>
-    if format ≠ [] then .error .format         -- no format is registered in the library
+    if format ≠ [] then parseWithFormat fs format .dir look
     else .error .read                          -- io.ReadAll: "is a directory"
   | some (.file ls) =>
-    if format ≠ [] then .error .format
+    if format ≠ [] then parseWithFormat fs format (.file ls) look
     else parseLines look ls []
 
 /-- `loadEnvFile`: a missing file (`fileIsMissing`: ENOENT or ENOTDIR) is an error only when required -/
